@@ -1011,9 +1011,46 @@ mod vtrace {
         }
         static ON: AtomicBool = AtomicBool::new(false);
         static PERMILLE: AtomicU64 = AtomicU64::new(0);
-        static LOG: Mutex<Vec<String>> = Mutex::new(Vec::new());
-        static COUNTS: [AtomicU64; 16] = [const { AtomicU64::new(0) }; 16];
+        /// The event log.  `pending` = a run of consecutive apply-cache buckets the collector has
+        /// locked (`L`) / is unlocking (`U`): (kind, thread, address of the first bucket, count); it is
+        /// written out as ONE line before any other event is logged, so the order of the lines is
+        /// the order in which the events were reported (every cache event is reported with the
+        /// bucket's lock held).  `geom` = (address of bucket 0, number of buckets, bucket size).
+        struct LogState {
+            lines: Vec<String>,
+            pending: Option<(char, usize, usize, usize)>,
+            geom: Option<(usize, usize, usize)>,
+        }
+        impl LogState {
+            fn flush(&mut self) {
+                if let Some((kind, tid, first, count)) = self.pending.take() {
+                    self.lines.push(format!("EV C{kind} {tid} @{first} {count}"));
+                }
+            }
+            fn push(&mut self, e: String) {
+                self.flush();
+                self.lines.push(e);
+            }
+            fn run(&mut self, kind: char, tid: usize, addr: usize) {
+                let stride = self.geom.map_or(0, |g| g.2);
+                match &mut self.pending {
+                    Some((k, t, first, count)) if *k == kind && *t == tid && stride != 0 && addr == *first + *count * stride => {
+                        *count += 1
+                    }
+                    _ => {
+                        self.flush();
+                        self.pending = Some((kind, tid, addr, 1));
+                    }
+                }
+            }
+        }
+        static LOG: Mutex<LogState> = Mutex::new(LogState { lines: Vec::new(), pending: None, geom: None });
+        static COUNTS: [AtomicU64; 32] = [const { AtomicU64::new(0) }; 32];
         static INSTALLED: AtomicBool = AtomicBool::new(false);
+        thread_local! {
+            /// the apply-cache bucket this thread locked last with the blocking `lock()`
+            static LAST_BUCKET: Cell<usize> = const { Cell::new(0) };
+        }
 
         fn next_rand() -> u64 {
             RNG.with(|r| {
@@ -1026,11 +1063,21 @@ mod vtrace {
             })
         }
 
+        /// `EV CA|CH <tid> @<bucket address> <operand edges> <value edges> (<node id> <tag>)*`
+        fn cache_event(kind: &str, data: &[usize]) -> String {
+            let mut e = format!("EV {kind} {} @{}", TID.with(|t| t.get()), data[0]);
+            for d in &data[1..] {
+                e.push(' ');
+                e.push_str(&d.to_string());
+            }
+            e
+        }
+
         fn hook(s: u32, data: &[usize]) {
             if !ON.load(Relaxed) {
                 return;
             }
-            COUNTS[(s as usize).min(15)].fetch_add(1, Relaxed);
+            COUNTS[(s as usize).min(31)].fetch_add(1, Relaxed);
             match s {
                 site::GOI_LEVEL => LEVEL.with(|l| l.set(data[0])),
                 site::GOI_FOUND | site::GOI_NEW => {
@@ -1053,11 +1100,51 @@ mod vtrace {
                     let e = format!("EV R {} {}", TID.with(|t| t.get()), data[0]);
                     LOG.lock().unwrap().push(e);
                 }
+                // ---- apply cache protocol (C07k): all of these are reported with the bucket locked ----
+                site::CACHE_BUCKET_LOCK => LAST_BUCKET.with(|b| b.set(data[0])),
+                site::CACHE_PRE_GC => {
+                    let mut log = LOG.lock().unwrap();
+                    log.geom = Some((data[0], data[1], data[2]));
+                    let e = format!("EV CP {} {}", TID.with(|t| t.get()), data[1]);
+                    log.push(e);
+                }
+                site::CACHE_PRE_GC_BUCKET => {
+                    let (tid, addr) = (TID.with(|t| t.get()), LAST_BUCKET.with(|b| b.get()));
+                    LOG.lock().unwrap().run('L', tid, addr);
+                }
+                site::CACHE_POST_GC_BUCKET => {
+                    let tid = TID.with(|t| t.get());
+                    LOG.lock().unwrap().run('U', tid, data[0]);
+                }
+                site::GC_BEGIN => {
+                    let e = format!("EV GB {}", TID.with(|t| t.get()));
+                    LOG.lock().unwrap().push(e);
+                }
+                site::GC_END => {
+                    let e = format!("EV GE {}", TID.with(|t| t.get()));
+                    LOG.lock().unwrap().push(e);
+                }
+                site::CACHE_ADD_DONE => {
+                    let e = cache_event("CA", data);
+                    LOG.lock().unwrap().push(e);
+                }
+                site::CACHE_HIT => {
+                    let e = cache_event("CH", data);
+                    LOG.lock().unwrap().push(e);
+                }
                 _ => {}
             }
-            // schedule perturbation (never while the event is being logged)
+            // schedule perturbation (never while the event is being logged; not at the collector's
+            // per-bucket events: there are millions of them)
             let p = PERMILLE.load(Relaxed);
-            if p > 0 && s != site::GOI_FOUND && s != site::GOI_NEW && s != site::GC_REMOVE {
+            if p > 0
+                && s != site::GOI_FOUND
+                && s != site::GOI_NEW
+                && s != site::GC_REMOVE
+                && s != site::CACHE_BUCKET_LOCK
+                && s != site::CACHE_PRE_GC_BUCKET
+                && s != site::CACHE_POST_GC_BUCKET
+            {
                 let r = next_rand();
                 if r % 1000 < p {
                     if (r >> 20) % 4 == 0 {
@@ -1077,7 +1164,12 @@ mod vtrace {
                 oxidd_core::verif::set_hook(Some(Box::new(hook)));
             }
             let _ = seed;
-            LOG.lock().unwrap().clear();
+            {
+                let mut log = LOG.lock().unwrap();
+                log.lines.clear();
+                log.pending = None;
+                log.geom = None;
+            }
             for c in &COUNTS {
                 c.store(0, Relaxed);
             }
@@ -1090,7 +1182,41 @@ mod vtrace {
         }
         pub fn end() -> Vec<String> {
             ON.store(false, Relaxed);
-            let mut v = std::mem::take(&mut *LOG.lock().unwrap());
+            let (mut v, geom) = {
+                let mut log = LOG.lock().unwrap();
+                log.flush();
+                (std::mem::take(&mut log.lines), log.geom)
+            };
+            // bucket addresses -> bucket numbers (if no collection ran in the block the cache geometry
+            // is unknown: rank among the addresses seen)
+            let mut addrs: Vec<usize> = Vec::new();
+            if geom.is_none() {
+                for l in &v {
+                    if let Some(t) = l.split(' ').find(|t| t.starts_with('@')) {
+                        addrs.push(t[1..].parse().unwrap());
+                    }
+                }
+                addrs.sort_unstable();
+                addrs.dedup();
+            }
+            for l in v.iter_mut() {
+                if l.starts_with("EV C") && l.contains('@') {
+                    let toks: Vec<String> = l
+                        .split(' ')
+                        .map(|t| match t.strip_prefix('@') {
+                            Some(a) => {
+                                let a: usize = a.parse().unwrap();
+                                match geom {
+                                    Some((base, _, stride)) => (a.wrapping_sub(base) / stride.max(1)).to_string(),
+                                    None => addrs.binary_search(&a).unwrap().to_string(),
+                                }
+                            }
+                            None => t.to_string(),
+                        })
+                        .collect();
+                    *l = toks.join(" ");
+                }
+            }
             let mut c = String::from("EVSTAT");
             for (i, n) in COUNTS.iter().enumerate() {
                 let n = n.load(Relaxed);
